@@ -231,7 +231,7 @@ def _io_oracle(o, blocking, entry, length):
 def _replay_zero_len(prop, harness, rec):
     entry = harness.rsplit("_", 1)[1]
     script = _script_from(rec)
-    blocking = _int(rec, 7, signed=False)
+    blocking = _int(rec, 14, signed=False)
     blocking = 1 if blocking is None else (blocking & 1)
     r = run_case(["io", entry, 0, blocking] + script, 20)
     if "error" in r:
@@ -256,20 +256,36 @@ def _replay_buf(prop, harness, rec):
     entry = _buf_entry(harness)
     if entry is None:
         return {"status": "unavailable", "detail": "no entry point mapping"}
+    # any() order of run_buf: 3 x (kind, n), STREAM 8 x u8, BLOCKING, limit flag (1 = unlimited), WAIT_FAILS_AT, len, buf 4 x u8
     script = _script_from(rec)
-    blocking = (_int(rec, 7, signed=False) or 0) & 1
-    length = _int(rec, 10, signed=False)
+    blocking = (_int(rec, 14, signed=False) or 0) & 1
+    unlimited = (_int(rec, 15, signed=False) or 0) & 1
+    length = _int(rec, 17, signed=False)
     if length is None or length > 4:
         return {"status": "unavailable", "detail": "could not decode the counterexample"}
-    r = run_case(["io", entry, length, blocking] + script, 30)
-    if "error" in r:
-        return {"status": "unavailable", "detail": r["error"]}
-    bad = _io_oracle(r["out"], blocking, entry, length)
-    if prop == "C18":
-        bad = [b for b in bad if "blocking mode" in b]
-    st = "reproduced" if bad else "not_reproduced"
-    return {"status": st, "detail": "; ".join(bad) or "native run satisfies the oracle (time-limit / wait-failure choices of the counterexample are not replayable natively)",
-            "case": ["io", entry, length, blocking] + script, "out": r["out"]}
+    # The exact run first; then natively replayable variants of it: a wait that fails or a time limit that expires in the
+    # model becomes a hard error of the next kernel call (the hooks leave their loops through the same exits), and a real
+    # 15 ms SO_SNDTIMEO/SO_RCVTIMEO with a kernel that takes 8 ms to say EAGAIN makes the limit expire natively.
+    variants = [(script, None)]
+    for cut in range(len(script), 0, -1):
+        v = script[:cut - 1] + ["r"]
+        if v != script and (v, None) not in variants:
+            variants.append((v, None))
+    if not unlimited:
+        variants.append((script, {"OCV_LIMIT_MS": "15", "OCV_EAGAIN_SLEEP_MS": "8"}))
+    tried = []
+    for v, env in variants:
+        r = run_case(["io", entry, length, blocking] + v, 30, extra_env=env)
+        if "error" in r:
+            return {"status": "unavailable", "detail": r["error"]}
+        bad = _io_oracle(r["out"], blocking, entry, length)
+        if prop == "C18":
+            bad = [b for b in bad if "blocking mode" in b]
+        tried.append({"case": ["io", entry, length, blocking] + v, "env": env, "violations": bad})
+        if bad:
+            return {"status": "reproduced", "detail": "; ".join(bad), "case": ["io", entry, length, blocking] + v, "env": env,
+                    "variant_of_counterexample": v != script or env is not None, "out": r["out"], "tried": tried}
+    return {"status": "not_reproduced", "detail": "the native run and its replayable variants satisfy the oracle", "tried": tried}
 
 
 # ---------------------------------------------------------------- C16/C17 vectored socket I/O
@@ -349,7 +365,7 @@ def _replay_vec(prop, harness, rec):
 def _replay_nonblocking(prop, harness, rec):
     entry = _buf_entry(harness)
     script = _script_from(rec)
-    length = _int(rec, 10, signed=False)
+    length = _int(rec, 17, signed=False)
     if not script or script[0] != "a" or length is None or not (1 <= length <= 4):
         script, length = ["a", "d2"], 4
     r = run_case(["io", entry, length, 0] + script, 30)
@@ -443,6 +459,24 @@ def _replay_c19_step(prop, harness, rec):
     cached = [[v[8] & 1, v[9] & 1], [v[10] & 1, v[11] & 1]]
     slot = 0 if (v[12] & 1) else 1
     op_tv = (v[13], v[14])
+    # The step harnesses treat the conversion as an uninterpreted function, so only the equality pattern of the timevals (and
+    # which of them are zero / rejected) matters. The solver likes values the real kernel clamps to "forever"; replace them by
+    # small distinct values with the same pattern: zero stays zero, the k-th distinct non-zero timeval becomes k+1 seconds.
+    canon = {}
+
+    def c(tv, is_op=False):
+        sec, usec = tv
+        if is_op and (usec < 0 or usec >= 1_000_000):
+            return (1, 2_000_000)  # rejected by the kernel (EDOM)
+        if is_op and sec < 0:
+            return (-1, 0)  # accepted by Linux, stored as zero
+        if sec == 0 and usec == 0:
+            return (0, 0)
+        if tv not in canon:
+            canon[tv] = (len(canon) + 1, 0)
+        return canon[tv]
+    tvs = [[c(tvs[0][0]), c(tvs[0][1])], [c(tvs[1][0]), c(tvs[1][1])]]
+    op_tv = c(op_tv, True)
     ops = []
     for i in (0, 1):
         ops += [f"{i}R{_tv_arg(*tvs[i][0])}", f"{i}S{_tv_arg(*tvs[i][1])}"]
@@ -498,3 +532,151 @@ def _replay_c19_history(prop, harness, rec):
         if bad:
             return {"status": "reproduced", "detail": "; ".join(bad), "tried": tried}
     return {"status": "unavailable", "detail": "the fixed native histories pass; solver counterexample only", "tried": tried}
+
+
+# ---------------------------------------------------------------- queues, pools, beans
+@replayer("c03_")
+def _replay_c03(prop, harness, rec):
+    ordered = 1 if "ows" in harness else 0
+    r = run_case(["ws_len_race", ordered, 12, 3, 20000], 120)
+    if "error" in r:
+        return {"status": "unavailable", "detail": r["error"]}
+    o = r["out"]
+    if o is None:
+        return {"status": "unavailable", "detail": f"native case crashed: {r['stderr_tail'][-200:]}"}
+    if o["bad"]:
+        b = o["bad"][0]
+        return {"status": "reproduced", "out": {"runs": o["runs"], "bad_runs": len(o["bad"]), "first": b},
+                "detail": f"{len(o['bad'])} of {o['runs']} runs: 3 threads pushed {b['pushed']} items concurrently, the shared queue reports "
+                          f"{b['reported_len']} and pop() drains {b['drained_by_pop']}"}
+    return {"status": "not_reproduced", "detail": "reported length and drain matched the pushes in every run (the race is probabilistic)", "out": o}
+
+
+def _ows_ops(rec, with_final):
+    prio = _int(rec, 0)
+    a, b, c, d = (_int(rec, i, signed=False) for i in (1, 2, 3, 4))
+    if None in (prio, a, b, c, d) or max(a, b, c, d) > 2:
+        return None
+    ops = [f"p0:{prio}"] * a + ["o1"] + [f"p0:{prio}"] * b + ["o1"] + [f"p0:{prio}"] * c
+    if with_final:
+        ops += ["o0"] * d + ["o0", "o1", "o1", "o0"]
+    return ops
+
+
+@replayer("c04_ows_")
+@replayer("c06_ows_")
+def _replay_ows(prop, harness, rec):
+    with_final = harness.startswith("c06_")
+    ops = _ows_ops(rec, with_final)
+    if ops is None:
+        return {"status": "unavailable", "detail": "could not decode the counterexample"}
+    r = run_case(["ows_history", 2] + ops, 30)
+    if "error" in r:
+        return {"status": "unavailable", "detail": r["error"]}
+    o = r["out"]
+    if r["timed_out"] or r["rc"] == 3 or (o and "spin_at_op" in o):
+        return {"status": "reproduced", "case": ["ows_history", 2] + ops, "out": o,
+                "detail": f"operation {o.get('spin_at_op') if o else '?'} of the history never returns (2 s watchdog)"}
+    if o is None:
+        return {"status": "reproduced", "case": ops, "detail": f"crash: {r['stderr_tail'][-200:]}"}
+    if with_final:
+        pops = o["pops"]
+        for i, p in enumerate(pops):
+            if p["local"] == 0 and p["got"] is None and any(q["got"] is not None for q in pops[i + 1:]):
+                return {"status": "reproduced", "case": ["ows_history", 2] + ops, "out": o,
+                        "detail": f"pop at op {p['op']} on local queue 0 reported empty although a later pop still found an item"}
+        got = [p["got"] for p in pops if p["got"] is not None]
+        if len(set(got)) != len(got):
+            return {"status": "reproduced", "case": ops, "out": o, "detail": "an item was returned twice"}
+    return {"status": "not_reproduced", "case": ["ows_history", 2] + ops, "out": o, "detail": "native history satisfies the oracle"}
+
+
+@replayer("c26_")
+def _replay_c26(prop, harness, rec):
+    r = run_case(["beans_race", 600, 8], 180)
+    if "error" in r:
+        return {"status": "unavailable", "detail": r["error"]}
+    o = r["out"]
+    if o is None:
+        return {"status": "unavailable", "detail": f"native case crashed: {r['stderr_tail'][-200:]}"}
+    if o["diverging_rounds"] > 0:
+        return {"status": "reproduced", "out": o,
+                "detail": f"{o['diverging_rounds']} of {o['rounds']} rounds: 8 threads released together by a barrier did not all receive the instance a later lookup returns"}
+    return {"status": "not_reproduced", "out": o, "detail": "all threads received the same instance in every round (the race is probabilistic)"}
+
+
+@replayer("c02_result_reaches")
+def _replay_c02_cross(prop, harness, rec):
+    r = run_case(["join_cross_loop", 8], 60)
+    if "error" in r:
+        return {"status": "unavailable", "detail": r["error"]}
+    o = r["out"]
+    if o is None:
+        return {"status": "unavailable", "detail": f"native case crashed: {r['stderr_tail'][-200:]}"}
+    bad = [t for t in o["tasks"] if t["ran"] and t["join"] == "timeout"]
+    if bad:
+        return {"status": "reproduced", "out": o,
+                "detail": f"{len(bad)} of {len(o['tasks'])} tasks ran (on {bad[0]['thread']}) but timeout_join(1 s) on their handles timed out: "
+                          "the result is stored in the pool that ran the task, the handle asks the pool the task was submitted to"}
+    return {"status": "not_reproduced", "out": o, "detail": "every join returned its task's value"}
+
+
+@replayer("c02_completion")
+def _replay_c02_race(prop, harness, rec):
+    r = run_case(["join_race", 3000, 300], 600)
+    if "error" in r:
+        return {"status": "unavailable", "detail": r["error"]}
+    o = r["out"]
+    if o is None:
+        return {"status": "unavailable", "detail": f"native case crashed: {r['stderr_tail'][-200:]}"}
+    if o["joins_that_waited_the_whole_timeout"] or o["joins_without_the_result"]:
+        return {"status": "reproduced", "out": o,
+                "detail": f"{o['joins_that_waited_the_whole_timeout']} of {o['tasks']} joins slept their whole {o['timeout_ms']} ms timeout although the task had run"}
+    return {"status": "unavailable", "out": o, "detail": "the interleaving did not occur in 3000 native joins (probabilistic); solver counterexample only"}
+
+
+@replayer("c13_waiter_of_a_cancelled_task")
+def _replay_c13_waiter(prop, harness, rec):
+    r = run_case(["pool_cancel", 1], 30)
+    if "error" in r:
+        return {"status": "unavailable", "detail": r["error"]}
+    o = r["out"]
+    if o is None:
+        return {"status": "unavailable", "detail": f"native case gave no output (rc={r['rc']}, timed_out={r['timed_out']})"}
+    c = o["cancelled_before_start"]
+    if c["ran"] == 0 and c["waiter"] == "timeout":
+        return {"status": "reproduced", "out": o, "detail": f"task cancelled before it started (never ran); its waiter slept its whole {c['waited_ms']} ms timeout and got no answer"}
+    return {"status": "not_reproduced", "out": o, "detail": "the waiter was answered"}
+
+
+@replayer("c12_stop_settles_waiters")
+def _replay_c12_settle(prop, harness, rec):
+    r = run_case(["pool_cancel", "stop"], 15)
+    if "error" in r:
+        return {"status": "unavailable", "detail": r["error"]}
+    if r["timed_out"]:
+        return {"status": "reproduced", "detail": "CoroutinePool::stop() with a waiter registration left never returns (15 s watchdog): do_clean iterates `waits` and "
+                "notify() removes from the same map shard - self-deadlock"}
+    o = r["out"]
+    if o is None:
+        return {"status": "reproduced", "detail": f"stop() crashed: {r['stderr_tail'][-200:]}"}
+    return {"status": "not_reproduced", "out": o, "detail": "stop() returned"}
+
+
+@replayer("c09_step_delay_in_syscall_state")
+@replayer("c09_step_cancel_in_syscall_state")
+@replayer("c09_syscall_state_requests")
+def _replay_c09_syscall_state(prop, harness, rec):
+    tried = []
+    for kind in (["cancel"] if "cancel" in harness else ["delay"]) + (["delay", "cancel"] if "requests" in harness else []):
+        r = run_case(["co_leak", kind, 4242], 20)
+        if "error" in r:
+            return {"status": "unavailable", "detail": r["error"]}
+        o = r["out"]
+        tried.append({"kind": kind, "out": o})
+        if o is None:
+            return {"status": "unavailable", "detail": f"native case crashed: {r['stderr_tail'][-200:]}"}
+        if not o["b_plain_suspend_reported_correctly"]:
+            return {"status": "reproduced", "tried": tried,
+                    "detail": f"coroutine A made a {kind} request while in a system-call state ({o['a_reports']}); the next coroutine's plain suspend on the same thread was reported as {o['b_reports']}"}
+    return {"status": "not_reproduced", "tried": tried, "detail": "the following coroutine's plain suspend was reported as Suspend((), 0)"}
